@@ -19,7 +19,7 @@ RULE = ("one evaluation = one seeded history (<= 60 operations on a dataset of <
         "even-odd polygon test), and at the end with a freshly built dataset given the same final settings. "
         "non-trivial = >=1 setting change and >=1 comparison; distinct = distinct event-log digests")
 STATE_MEASURE = "distinct (active ranges, #polygons, invalid flag, enabled flag, limit>0, manual-any, previous operation kind) tuples"
-PROBES = ["settings_transferred_to_second_dataset", "lookalike_dataset_filtered_before", "polygon_removed_via_config", "half_specified_range", "apply_failed_on_half_range", "range_removed_after_apply", "range_reversed", "range_min_eq_max", "bound_tied_with_data", "nan_in_range_feature",
+PROBES = ["removed_range_entered_again", "apply_retried_after_transient_read_fault", "settings_transferred_to_second_dataset", "lookalike_dataset_filtered_before", "polygon_removed_via_config", "half_specified_range", "apply_failed_on_half_range", "range_removed_after_apply", "range_reversed", "range_min_eq_max", "bound_tied_with_data", "nan_in_range_feature",
           "polygon_modified_in_place", "polygon_inverted", "polygon_removed", "limit_binding", "limit_not_binding",
           "disabled", "reset_with_state", "manual_edit", "force_apply", "file_backed", "apply_twice_same"]
 COMPONENTS = {"real": ["dclab Filter.update / RTDCBase.apply_filter / Configuration", "dclab PolygonFilter + compiled points_in_poly",
@@ -136,6 +136,9 @@ class World:
                     for f, v in self.data.items():
                         hw.store_feature(f, v)
             self.ctx.probe("file_backed")
+            from dst import faultfs
+            if getattr(self, "rseam", None) is None:
+                self.rseam = faultfs.ReadFaultSeam().install()
             return dclab.new_dataset(p)
         return dclab.new_dataset({f: v.copy() for f, v in self.data.items()})
 
@@ -152,6 +155,15 @@ class World:
                 v = self.data[half[0]]
                 fin = v[np.isfinite(v)]
                 return {"k": "complete_range", "feat": half[0], "val": float(fin[r.randrange(fin.size)]) if fin.size else 0.5}
+        back = sorted(getattr(self, "removed_applied", {}))
+        if back and r.random() < 0.35:
+            # the user enters a range again that was removed (and the removal applied) before: exactly the old bounds
+            f = r.choice(back)
+            lo, hi = self.removed_applied.pop(f)
+            return {"k": "set_range", "feat": f, "lo": lo, "hi": hi, "again": True}
+        if getattr(self, "rseam", None) is not None and self.dirty and r.random() < 0.12:
+            # the backing file fails once while the changed settings are applied; the caller applies again
+            return {"k": "faultapply", "at": r.choice([0, 0, 0, 1, 1, 2, 3, 5, 8]), "kind": r.choice(["err", "err", "intr"])}
         x = r.random()
         if x < 0.07 and x >= 0.04:
             # the settings are transferred to a second dataset (config.update), which then gets a polygon of its own
@@ -216,6 +228,8 @@ class World:
                 ctx.probe("range_reversed")
             if op["lo"] == op["hi"]:
                 ctx.probe("range_min_eq_max")
+            if op.get("again"):
+                ctx.probe("removed_range_entered_again")
             v = self.data[f]
             if np.any(v == op["lo"]) or np.any(v == op["hi"]):
                 ctx.probe("bound_tied_with_data")
@@ -269,8 +283,10 @@ class World:
                 return
             if f + " min" not in cfg:
                 return
-            cfg.pop(f + " min")
-            cfg.pop(f + " max")
+            lo_, hi_ = cfg.pop(f + " min"), cfg.pop(f + " max")
+            if not hasattr(self, "removed"):
+                self.removed, self.removed_applied = {}, {}
+            self.removed[f] = (float(lo_), float(hi_))
             if self.applied_once:
                 ctx.probe("range_removed_after_apply")
             ctx.log("a", f"rm_range {f}")
@@ -343,9 +359,46 @@ class World:
         elif k == "apply":
             self.apply_and_check(op.get("force") or [])
             return
+        elif k == "faultapply":
+            self.do_faultapply(op)
+            return
         ctx.state_ops += 1
         self.prev = k
         self.dirty = True
+
+    def do_faultapply(self, op):
+        """One read of the backing file fails (OSError / interrupt) while the settings are applied; then the caller applies
+        again: the result must equal the specification (state left behind by the failed application is what is judged)."""
+        ctx = self.ctx
+        seam = getattr(self, "rseam", None)
+        cfg0 = self.ds.config["filtering"]
+        if seam is None or [f for f in FEATS if (f + " min" in cfg0) != (f + " max" in cfg0)]:
+            return
+        # the file's scalar features are cold again, as right after opening it (RTDC_HDF5 keeps them in memory after the first read)
+        for ev in list(getattr(getattr(self.ds, "_events", None), "_cached_events", {}).values()):
+            if getattr(ev, "_array", None) is not None and hasattr(ev, "h5ds"):
+                ev._array = None
+        seam.arm(op["at"], op["kind"])
+        raised = None
+        try:
+            with warnings.catch_warnings():
+                warnings.simplefilter("ignore")
+                self.ds.apply_filter()
+        except BaseException as e:  # noqa: B036 (KeyboardInterrupt is one of the injected kinds)
+            if type(e).__name__ in ("StopRun", "SystemExit"):
+                seam.disarm()
+                raise
+            raised = e
+        fired = seam.disarm()
+        ctx.log("c", "faultapply", f"fired={fired} raised={type(raised).__name__ if raised is not None else None}")
+        if raised is not None and not fired:
+            ctx.violation("C03.apply", f"apply_filter raised {type(raised).__name__}: {raised}", sig={"exc": type(raised).__name__, "where": "faultapply"})
+        if fired:
+            ctx.fault("read_" + op["kind"])
+            ctx.probe("apply_retried_after_transient_read_fault")
+            self.prev = "failed_apply"
+        self.dirty = True
+        self.apply_and_check([])
 
     def poly_points(self, dseed, axes):
         rs = seeds.np_rng(dseed, "poly")
@@ -420,6 +473,12 @@ class World:
             ctx.probe("apply_twice_same")
         self.dirty = False
         self.applied_once = True
+        if getattr(self, "removed", None):
+            cfg_ = ds.config["filtering"]
+            for f_ in list(self.removed):
+                v_ = self.removed.pop(f_)
+                if f_ + " min" not in cfg_ and f_ + " max" not in cfg_:
+                    self.removed_applied[f_] = v_
         sp = self.spec()
         if sp is None:
             return
